@@ -115,6 +115,22 @@ pub fn check_single(a: &LeanString, ma: &str) -> Result<(), String> {
     if back != ma {
         return Err(format!("String::from(&LeanString) differs for {:?}", ma));
     }
+    let back2: String = String::from(a.clone());
+    let mut ext = String::from("<");
+    ext.extend([a.clone(), LeanString::from(">")]);
+    if back2 != ma || ext.len() != ma.len() + 2 || &ext[1..ext.len() - 1] != ma {
+        return Err(format!("String::from(LeanString) / String::extend(LeanString) differs for {:?}", ma));
+    }
+    #[cfg(feature = "ls-std")]
+    {
+        let os: &std::ffi::OsStr = a.as_ref();
+        if os != std::ffi::OsStr::new(ma) {
+            return Err(format!("AsRef<OsStr> differs for {:?}", ma));
+        }
+    }
+    if a.to_string() != ma || a.chars().count() != ma.chars().count() || a.is_empty() != ma.is_empty() {
+        return Err(format!("to_string / Deref methods differ for {:?}", ma));
+    }
     Ok(())
 }
 
